@@ -160,6 +160,108 @@ class GuderleyEOS(Obligation):
         cx.eq('c^2=gamma*p/rho', cx['sound_speed'] * cx['sound_speed'] * cx['density'], g * cx['pressure'])
 
 
+class SedovEOS(Obligation):
+    """final lines of Sedov._run: specific_internal_energy and sound_speed are derived from the interpolated pressure and
+    density.  The whole _run is executed with npts=2, fminbound and interp1d replaced by stubs returning fresh values."""
+
+    def __init__(self, geom, gamma):
+        from . import sedov_common as S
+        self.S = S
+        self.geom, self.gamma = geom, gamma
+        self.id = 'C03.sedov.g%d.gamma=%s' % (geom, gamma)
+        self.modules = [H.mod(S.SM)]
+        self.functions = [H.mod(S.SM).Sedov._run]
+        self.bounds = 'rho0, eblast, omega, r, t symbolic; gamma fixed; internal table of 2 points; interpolated pressure/density are fresh positive symbols'
+        self.skip_validation = True
+        self.max_paths = 80
+
+    def shim_extra(self):
+        import scipy.optimize as so
+        from symx.engine import current
+        S = self.S
+
+        def fminbound(f, a, b, **kw):
+            return current().fresh('vwant')
+
+        def interp1d(x, y, **kw):
+            def g(q):
+                q = np.asarray(q, dtype=object)
+                out = np.empty(q.shape, dtype=object)
+                for i in range(out.size):
+                    v = current().fresh('interp')
+                    current().assume(T.gt(v.t, T.ZERO))
+                    out.flat[i] = v
+                return out
+            return g
+        d = S.shim_extra(cut_at_jump=False)
+        d.update({'sci_opt': H.ModProxy(so, fminbound=fminbound), 'interp1d': interp1d, 'ExactSolution': Recorder})
+        return d
+
+    def build(self, mk):
+        s = self.S.make(mk, self.geom, self.gamma)
+        if Mode.symbolic(mk):
+            sol = s._run(H.arr([mk('r')]), mk('t'), npts=2)
+        else:
+            sol = s(np.array([float(mk('r'))]), mk('t'))
+        out = H.first(H.fields(sol))
+        out['_gamma'] = K(mk, self.gamma)
+        return out
+
+    def domain(self, V):
+        return self.S.domain(V, self.geom)
+
+    def claims(self, cx):
+        g = cx['_gamma']
+        p, rho, e, c = cx['pressure'], cx['density'], cx['specific_internal_energy'], cx['sound_speed']
+        if isinstance(p, float) and p != p:
+            return
+        pos = (rho > 0) if cx.symbolic else bool(rho > 0)
+        cx.eq('p=(gamma-1)*rho*e', p, (g - 1) * rho * e, when=pos)
+        cx.eq('c^2=gamma*p/rho', c * c * rho, g * p, when=pos)
+
+
+class RiemannPointEOS(Obligation):
+    """the assembled ideal-gas Riemann fields at a user point satisfy p = (g_side - 1) rho e with the gamma of the side of the
+    contact the point is on (covers every region incl. both star regions and the fans, unequal gammas)"""
+
+    def __init__(self, gl, gr, only):
+        from . import riemann_common as R
+        self.R = R
+        self.gl, self.gr, self.only = gl, gr, only
+        self.id = 'C03.riemann.%s.gl=%s.gr=%s' % (only, gl, gr)
+        self.modules = R.modules()
+        self.extra_shim = dict(R.shim_extra_point(), bisect=R.bisect_only(only))
+        self.functions = [H.mod(R.RM).RiemannIGEOS.driver, H.mod(R.EP).IGEOS_Solver._run, H.mod(R.UM).sie, H.mod(R.UM).rho_p_u_rarefaction]
+        self.bounds = 'left/right states, membrane position, time and ONE user point symbolic; gamma pair fixed; one wave pattern per obligation; every region = path'
+        self.skip_validation = True
+        self.max_paths = 1500
+        self.timeout_s = 15
+
+    def build(self, mk):
+        out = self.R.run_point(mk, self.gl, self.gr)
+        if Mode.symbolic(mk) and out['pattern'] != self.only:
+            from symx.engine import PathAbort
+            raise PathAbort()
+        pat = out['pattern']
+        ic = 1 if pat[0] == 'S' else 2
+        d = {k: out[k] for k in ('density', 'pressure', 'velocity', 'specific_internal_energy', 'gl', 'gr')}
+        d['contact'] = out['xd0'] + out['t'] * out['Vregs'][ic]
+        d['x'] = mk('x')
+        d['_pattern'] = pat
+        return d
+
+    def domain(self, V):
+        return self.R.domain(V)
+
+    def claims(self, cx):
+        x, xc = cx['x'], cx['contact']
+        p, rho, e = cx['pressure'], cx['density'], cx['specific_internal_energy']
+        left = (x < xc) if cx.symbolic else bool(x < xc - 1e-9 * (1 + abs(xc)))
+        right = (x > xc) if cx.symbolic else bool(x > xc + 1e-9 * (1 + abs(xc)))
+        cx.eq('left of the contact: p=(gl-1)*rho*e', p, (cx['gl'] - 1) * rho * e, when=left)
+        cx.eq('right of the contact: p=(gr-1)*rho*e', p, (cx['gr'] - 1) * rho * e, when=right)
+
+
 def obligations(tier):
     obs = []
     for g in (1, 2, 3):
@@ -172,4 +274,11 @@ def obligations(tier):
     for n in (2, 3):
         for gam in ([Fraction(7, 5), Fraction(3)] if tier == 'quick' else H.G_FULL):
             obs.append(GuderleyEOS(n, gam))
+    for g in (1, 2, 3):
+        for gam in ([Fraction(7, 5)] if tier == 'quick' else H.G_FULL):
+            obs.append(SedovEOS(g, gam))
+    from . import riemann_common as R
+    for gl, gr in ([(Fraction(5, 3), Fraction(7, 5))] if tier == 'quick' else R.GAMMA_PAIRS_FULL):
+        for pat in ('SCS', 'SCR', 'RCS', 'RCR'):
+            obs.append(RiemannPointEOS(gl, gr, pat))
     return obs
